@@ -25,8 +25,8 @@ DEFAULT_SEED = 20260926
 BUDGET = {
     # property: (quick runs, thorough runs); quick is sized for roughly 30-60 s on 16 idle cores
     "C02": (1800, 36000), "C03": (2000, 40000), "C04": (2500, 50000), "C05": (2000, 40000), "C06": (1800, 30000),
-    "C07": (1800, 36000), "C08": (3000, 60000), "C09": (1200, 20000), "C10": (1100, 26000), "C11": (3000, 60000),
-    "C12": (2000, 40000), "C16": (800, 16000), "C17": (1800, 36000), "C18": (1400, 36000), "C19": (1400, 25000),
+    "C07": (1800, 36000), "C08": (3000, 60000), "C09": (1200, 20000), "C10": (1400, 26000), "C11": (3000, 60000),
+    "C12": (2000, 40000), "C16": (1400, 20000), "C17": (1800, 36000), "C18": (1400, 36000), "C19": (1400, 25000),
     "C20": (900, 15000),
 }
 
